@@ -115,10 +115,8 @@ def parse_tla(s):
 
 
 def read_dump(path):
-    """Read a `tlc -dump` file: yields dict var -> value for each state."""
-    with open(path) as fh:
-        txt = fh.read()
-    for block in re.split(r'^State \d+:\s*$', txt, flags=re.M)[1:]:
+    """Read a `tlc -dump` file (streaming: dumps can be gigabytes): yields dict var -> value for each state."""
+    def parse_block(block):
         st = {}
         for m in re.finditer(r'^/\\ (\w+) = (.*?)(?=^/\\ \w+ = |\Z)', block, flags=re.M | re.S):
             st[m.group(1)] = parse_tla(m.group(2))
@@ -126,7 +124,18 @@ def read_dump(path):
             m = re.match(r'\s*(\w+) = (.*)\Z', block, flags=re.S)
             if m:
                 st[m.group(1)] = parse_tla(m.group(2))
-        yield st
+        return st
+    buf, started = [], False
+    with open(path) as fh:
+        for line in fh:
+            if re.match(r'^State \d+:\s*$', line):
+                if started and buf:
+                    yield parse_block(''.join(buf))
+                buf, started = [], True
+            elif started:
+                buf.append(line)
+    if started and buf:
+        yield parse_block(''.join(buf))
 
 
 # ----------------------------------------------------------------------------------------------
